@@ -1,4 +1,4 @@
-import QuantemModel.Lemmas.PtychoOpsForward
+import QuantemModel.Lemmas.PtychoOpsProjection
 /-!
 C16 — the forward-model operators of Model/PtychoOps.lean obey their energy, adjoint and
 projection identities.  All statements are about the executable model instantiated at the
@@ -145,5 +145,133 @@ theorem shift_int {nr nc : ℕ} (hr : 0 < nr) (hc : 0 < nc) {x : Img ℝ} (hx : 
 -- non-vacuity: rectangular images of every positive size exist, and `roll2` is the NumPy roll
 example : Rect 2 3 (build 2 3 fun i j => (⟨(i : ℝ), (j : ℝ)⟩ : Cx ℝ)) := rect_build _ _ _
 example : roll2 [[1, 2, 3], [4, 5, 6]] 1 (-1) = [[5, 6, 4], [2, 3, 1]] := by decide
+
+
+/-! ## 5. pure-phase objects: the summed diffraction intensity equals the probe's intensity -/
+
+/-- summed detector intensity = total exit-wave intensity (ortho-normalised FFT, incoherent mode
+sum and `fftshift` included), for any number of modes -/
+theorem detector_total {nr nc : ℕ} (hr : 0 < nr) (hc : 0 < nc) (ws : List (Img ℝ))
+    (hws : ∀ w ∈ ws, Rect nr nc w) : rsum (detector ws) = (ws.map energy).sum :=
+  rsum_detector hr hc ws hws
+
+/-- **purephase_energy**: if every object slice patch has unit modulus and the propagators are
+unit-modulus kernels (e.g. `propagator …`, see `propagator_unit_modulus`), then for ANY number of
+slices and ANY number of probe modes the summed predicted diffraction intensity of the pattern
+equals the total intensity of the probe stack.  Induction on the slices. -/
+theorem purephase_energy {nr nc : ℕ} (hr : 0 < nr) (hc : 0 < nc)
+    (patches props probes : List (Img ℝ))
+    (hpatch : ∀ O ∈ patches, Rect nr nc O ∧ UnitModulus O)
+    (hprops : ∀ P ∈ props, Rect nr nc P ∧ UnitModulus P)
+    (hprobes : ∀ p ∈ probes, Rect nr nc p) :
+    rsum (detector (overlapProjection patches props probes).2) = (probes.map energy).sum := by
+  have hexit : ∀ w ∈ (overlapProjection patches props probes).2, Rect nr nc w := by
+    intro w hw
+    simp only [overlapProjection, List.map_map, List.mem_map] at hw
+    obtain ⟨p, hp, rfl⟩ := hw
+    exact (overlapProjection1_energy hr hc patches props p (hprobes p hp) hpatch hprops).1
+  rw [rsum_detector hr hc _ hexit]
+  simp only [overlapProjection, List.map_map]
+  congr 1
+  apply List.map_congr_left
+  intro p hp
+  exact (overlapProjection1_energy hr hc patches props p (hprobes p hp) hpatch hprops).2
+
+/-- the model's own propagator arrays satisfy the hypothesis of `purephase_energy` -/
+theorem propagatorArrays_ok (nr nc : ℕ) (sr sc e thr thc : ℝ) (n : ℕ) (dzs : List ℝ) :
+    ∀ P ∈ propagatorArrays nr nc sr sc e thr thc n dzs, Rect nr nc P ∧ UnitModulus P := by
+  intro P hP
+  unfold propagatorArrays at hP
+  split_ifs at hP
+  · simp at hP
+  · obtain ⟨dz, _, rfl⟩ := List.mem_map.1 hP
+    exact ⟨by rw [propagator_eq]; exact rect_build _ _ _, propagator_unit_modulus nr nc sr sc _ dz thr thc⟩
+
+/-- patches of a real-valued (potential / pure-phase) object are unit modulus: `|exp(i·φ)| = 1` -/
+theorem purephase_patches_unit (objFlat : List (List ℝ)) (idx : List Nat)
+    (hidx : ∀ o ∈ objFlat, ∀ i ∈ idx, i < o.length) :
+    ∀ row ∈ getObjPatchesReal objFlat idx, ∀ z ∈ row, Cx.abs2 z = 1 := by
+  intro row hrow z hz
+  unfold getObjPatchesReal at hrow
+  rw [getObjPatches_eq, List.map_map] at hrow
+  obtain ⟨o, ho, rfl⟩ := List.mem_map.1 hrow
+  simp only [Function.comp, gather, List.mem_map] at hz
+  obtain ⟨i, hi, rfl⟩ := hz
+  have hlt : i < (o.map Cx.cis).length := by simpa using hidx o ho i hi
+  rw [List.getD_eq_getElem?_getD, List.getElem?_eq_getElem hlt, Option.getD_some, List.getElem_map]
+  exact abs2_cis _
+
+-- non-vacuity: a 2-slice, 1-mode instance of the hypotheses (all-ones slices and kernels)
+example : ∀ O ∈ [build 2 2 fun _ _ => (Cx.one : Cx ℝ), build 2 2 fun _ _ => Cx.one],
+    Rect 2 2 O ∧ UnitModulus O := by
+  intro O hO
+  simp only [List.mem_cons, List.mem_nil_iff, or_false, or_self] at hO
+  subst hO
+  exact ⟨rect_build _ _ _, unitModulus_build.2 fun _ _ _ _ => abs2_one⟩
+
+/-! ## 6. Fourier magnitude projection: exact and idempotent -/
+
+/-- **proj_single_exact**: behind the single-state projection the detector sees exactly `A²` at
+every pixel (zeros of `A` and zeros of the current far field included; no sign condition). -/
+theorem proj_single_exact {nr nc : ℕ} (hr : 0 < nr) (hc : 0 < nc) {A : RImg ℝ} (hA : Rect nr nc A)
+    {x : Img ℝ} (hx : Rect nr nc x) :
+    detector [fourierProjectionSingle A x] = A.map (·.map fun a => a * a) :=
+  detector_fourierProjectionSingle hr hc hA hx
+
+/-- **proj_single_idempotent** (measured amplitudes are non-negative) -/
+theorem proj_single_idempotent {nr nc : ℕ} (hr : 0 < nr) (hc : 0 < nc) {A : RImg ℝ} (hA : Rect nr nc A)
+    (hpos : NonNeg A) {x : Img ℝ} (hx : Rect nr nc x) :
+    fourierProjectionSingle A (fourierProjectionSingle A x) = fourierProjectionSingle A x :=
+  fourierProjectionSingle_idem hr hc hA hpos hx
+
+/-- **proj_mixed_exact** (corner-centred, pixel by pixel): the incoherent intensity of the
+projected modes is `A'²` wherever the current incoherent far field is non-zero, and `0` where it
+vanishes (there the code's `0 ↦ ∞` guard zeroes the pixel: no phase / mode ratio exists). -/
+theorem proj_mixed_exact {nr nc : ℕ} (hr : 0 < nr) (hc : 0 < nc) {A : RImg ℝ} (hA : Rect nr nc A)
+    (xs : List (Img ℝ)) (hxs : ∀ x ∈ xs, Rect nr nc x) (hne : xs ≠ []) :
+    intensitiesCorner (fourierProjectionMixed A xs)
+      = List.zipWith (List.zipWith fun a f => if f = 0 then 0 else a * a) (ifftshift2 A)
+          (farfieldAmplitudes (xs.map fft2Ortho)) :=
+  intensitiesCorner_fourierProjectionMixed hr hc hA xs hxs hne
+
+/-- **proj_mixed_exact_detector**: with a nowhere-vanishing far field the detector sees exactly `A²` -/
+theorem proj_mixed_exact_detector {nr nc : ℕ} (hr : 0 < nr) (hc : 0 < nc) {A : RImg ℝ} (hA : Rect nr nc A)
+    (xs : List (Img ℝ)) (hxs : ∀ x ∈ xs, Rect nr nc x) (hne : xs ≠ [])
+    (hff : ∀ row ∈ farfieldAmplitudes (xs.map fft2Ortho), ∀ f ∈ row, f ≠ 0) :
+    detector (fourierProjectionMixed A xs) = A.map (·.map fun a => a * a) :=
+  detector_fourierProjectionMixed hr hc hA xs hxs hne hff
+
+/-- **proj_idempotent**: `fourier_projection` (either branch of the `num_probes` dispatch) applied
+twice equals applying it once — everywhere, including vanishing far-field pixels. -/
+theorem proj_idempotent {nr nc : ℕ} (hr : 0 < nr) (hc : 0 < nc) (n : ℕ) {A : RImg ℝ} (hA : Rect nr nc A)
+    (hpos : NonNeg A) (xs : List (Img ℝ)) (hxs : ∀ x ∈ xs, Rect nr nc x) :
+    fourierProjection n A (fourierProjection n A xs) = fourierProjection n A xs := by
+  unfold fourierProjection
+  split_ifs
+  · rw [List.map_map]
+    apply List.map_congr_left
+    intro x hx
+    exact fourierProjectionSingle_idem hr hc hA hpos (hxs x hx)
+  · exact fourierProjectionMixed_idem hr hc hA hpos xs hxs
+
+/-- the gradient step vanishes at a fixed point of the projection: `gradient_step(P x) = P(P x) − P x`,
+so by idempotence it is the zero image pattern-wise (stated as: both operands coincide) -/
+theorem gradient_step_fixed_point {nr nc : ℕ} (hr : 0 < nr) (hc : 0 < nc) (n : ℕ) {A : RImg ℝ} (hA : Rect nr nc A)
+    (hpos : NonNeg A) (xs : List (Img ℝ)) (hxs : ∀ x ∈ xs, Rect nr nc x) :
+    gradientStep n A (fourierProjection n A xs)
+      = List.zipWith subImg (fourierProjection n A xs) (fourierProjection n A xs) := by
+  unfold gradientStep
+  rw [proj_idempotent hr hc n hA hpos xs hxs]
+
+-- non-vacuity: non-negative rectangular amplitude arrays with zeros exist
+example : Rect 2 3 ([[0, 1, 2], [3, 0, 5]] : RImg ℝ) ∧ NonNeg ([[0, 1, 2], [3, 0, 5]] : RImg ℝ) := by
+  refine ⟨⟨rfl, ?_⟩, ?_⟩
+  · intro row hrow
+    simp only [List.mem_cons, List.mem_nil_iff, or_false] at hrow
+    rcases hrow with rfl | rfl <;> rfl
+  · intro row hrow a ha
+    simp only [List.mem_cons, List.mem_nil_iff, or_false] at hrow
+    rcases hrow with rfl | rfl <;>
+      (simp only [List.mem_cons, List.mem_nil_iff, or_false] at ha; rcases ha with rfl | rfl | rfl <;> norm_num)
 
 end QuantemModel.Props.C16
